@@ -3,6 +3,7 @@ package main
 import (
 	"fmt"
 	"math"
+	"math/big"
 	"regexp"
 	"sort"
 	"strings"
@@ -322,15 +323,26 @@ func runC10(t *Trace, r *Rng, tier string, _ []string) {
 					for k := 0; k < nr; k++ {
 						a := base.Add(time.Duration(r.Intn(10)) * time.Hour)
 						b := a.Add(time.Duration(r.Intn(5))*time.Hour + time.Duration(r.Intn(3)))
+						// a share of far-away bounds (time.Time reaches them, int64 nanoseconds do not)
+						if r.Chance(20) {
+							a = time.Date([]int{1000, 1600, 1677, 1969}[r.Intn(4)], 1, 1, 0, 0, 0, 0, time.UTC)
+						}
+						if r.Chance(20) {
+							b = time.Date([]int{2262, 2263, 3000, 9999}[r.Intn(4)], 6, 1, 0, 0, 0, 0, time.UTC)
+						}
+						nanos := func(t time.Time) string {
+							n := new(big.Int).Mul(big.NewInt(t.Unix()), big.NewInt(1000000000))
+							return n.Add(n, big.NewInt(int64(t.Nanosecond()))).String()
+						}
 						var st, en time.Time
 						ss, es := "nil", "nil"
 						if !r.Chance(25) {
 							st = a
-							ss = fmt.Sprint(a.UnixNano())
+							ss = nanos(a)
 						}
 						if !r.Chance(25) || st.IsZero() {
 							en = b
-							es = fmt.Sprint(b.UnixNano())
+							es = nanos(b)
 						}
 						rn := fmt.Sprintf("t%d", k)
 						f.AddDateTimeRange(rn, st, en)
